@@ -1,3 +1,15 @@
+def _universe(chk):
+    """evidence: what part of the exploration is exhaustive"""
+    chk.extra_cov["exhaustive_universes"] = [
+        "ArrowNativeTypeOp {add,sub,mul}_{checked,wrapping}, div/mod_{checked,wrapping}, kernel rem: all 256 x 256 operand pairs of i8 and of u8",
+        "ArrowNativeTypeOp neg_{checked,wrapping}: all values of i8, u8, i16, u16",
+        "arrow_arith::numeric::{neg,neg_wrapping}: all values of the 8- and 16-bit integer types (and with the failing rows under nulls)",
+        "arrow_arith::numeric binary kernels: all 256 values of Int8 / UInt8 against a scalar, both operand orders (every scalar in the thorough tier)",
+        "arrow_arith::boolean: every pair of columns of length <= 3 over {false, true, null}",
+        "thorough tier: every 16-bit left operand against 9 boundary right operands, 12 native operations",
+    ]
+
+
 PLAN = dict(
     id="C12",
     level="exploration",
@@ -19,18 +31,21 @@ PLAN = dict(
                "operand pairs for add/sub/mul/div/rem (checked and wrapping) at the ArrowNativeTypeOp level, all 8-bit values against "
                "scalars through arrow_arith::numeric, unary negation over all 8- and 16-bit values, all boolean column pairs of length <= 3. "
                "Boundary-dense + random above (16/32/64/128/256-bit integers, Decimal32/64/128/256 with equal and different scales, "
-               "timestamp/duration/date/interval combinations that are linear).",
+               "timestamp +- duration, timestamp - timestamp, date - date, duration +- duration, interval +- interval, interval * int64, "
+               "date / timestamp (fixed-offset zone) +- day-time interval).",
     level_note="Not decided: IEEE-754 float results (only null propagation, error freedom and totalOrder min/max), calendar-dependent "
-               "date/timestamp +- interval arithmetic, interval * float. 16-bit binary operations are exhaustive on the left operand "
+               "date/timestamp +- year-month / month-day-nano interval arithmetic (months), named time zones, interval * float. 16-bit binary operations are exhaustive on the left operand "
                "against a boundary set on the right only in the thorough tier. Witnesses (quotient for a remainder, multiple of 2^w "
                "for a wrapped product / sum) are computed by the driver and re-checked by TLC against an equation with a unique solution.",
     technique="TLA+ operator definitions (BigNum/Arith), TLC model checking of definitional identities, TLC trace validation of recorded kernel calls",
     rule="TLC evaluates Arith.tla on every recorded call of ArrowNativeTypeOp::{add,sub,mul,div,mod,neg}_{checked,wrapping}, "
          "arrow_arith::numeric::{add,sub,mul,div,rem,neg}(+_wrapping) (array/array, array/scalar, scalar/array), "
          "arrow_arith::aggregate::{sum,sum_checked,product_checked,min,max,bit_and,bit_or,bit_xor,bool_and,bool_or,min_boolean,max_boolean}, "
-         "arrow_arith::boolean::{and_kleene,or_kleene,and,or,and_not,not,is_null,is_not_null}, arrow_arith::arity::{unary,binary,try_unary,try_binary}: "
+         "arrow_arith::boolean::{and_kleene,or_kleene,and,or,and_not,not,is_null,is_not_null}, arrow_arith::arity::{unary,binary,try_unary,try_binary}, "
+         "arrow_arith::arithmetic::multiply_fixed_point{,_checked}, arrow_arith::bitwise::{bitwise_and,or,xor,and_not,not,shift_left,shift_right} (8/16-bit): "
          "exact result when representable in the result's physical type, error otherwise, result modulo 2^w for wrapping forms, documented "
          "decimal result precision/scale, null exactly where an input is null, null slots never evaluated; distinct = distinct event records",
+    extra_steps=[_universe],
     assumptions=[
         "the driver's limb encoder (vcore::big) and logical projection through public accessors are faithful (a corrupted field is rejected: binding self-test)",
         "TLC and the Json community module are trusted",
